@@ -3859,6 +3859,63 @@ def c16_like_progress(env, ob):
     return result(ob, "discharged", **kw)
 
 
+@obligation(id="C05.count_argument_decides_what_is_counted", funcs="HashAggregate::accumulate_row",
+            bounds="every path of accumulate_row with up to two aggregates in the select list (loop unrolled twice); the "
+                   "evaluator, the hash table and the accumulators are uninterpreted (the accumulators themselves: Kani "
+                   "C05.aggregate[*])", native="c05_count_skips_nulls")
+def c05_count_argument(env, ob):
+    """COUNT(*) counts rows, every other aggregate call - COUNT(col) included - is fed the VALUE of its argument for the
+    row (so that NULLs can be skipped by the accumulator).  Three laws per aggregate of the list: (1) the row-counting
+    entry `accumulate_star` is only reachable when the aggregate has no argument or `*`; (2) what `accumulate` receives is
+    what the evaluator returned for this aggregate's argument; (3) one of the two happens (or the row fails)."""
+    star = env.enum_variants("sql/binder/bounds.rs", "BoundExpression")["Star"]
+    argix = env.struct_fields("sql/planner/logical.rs", "AggregateExpr").index("arg")
+    ctx, f, args, res = explore(env, "runtime/ops/aggregate.rs", "accumulate_row", loop_bound=1)
+    qs, labels, n_star, n_acc = [], [], 0, 0
+    for path, rv in res:
+        last_next, last_eval, served = None, None, True
+        for e in path.events:
+            c = e["callee"]
+            if re.search(r"Enumerate<.*AggregateExpr>> as Iterator>::next$", c):
+                if last_next is not None and not served and not path.cut:
+                    qs.append(conj(e.get("pc_prefix", path.pc)))
+                    labels.append("aggregate_of_the_list_not_fed_for_this_row")
+                last_next, last_eval, served = mirsmt.describe(e["ret"]), None, False
+            elif c.endswith("::evaluate_as_single_value"):
+                last_eval = (mirsmt.describe(e["ret"]), e["argdesc"][-1])
+                served = True          # the row may fail here: Err travels up
+            elif c.endswith("Accumulator::accumulate_star"):
+                n_star += 1
+                served = True
+                if last_next is None:
+                    qs.append(conj(e.get("pc_prefix", path.pc)))
+                    labels.append("row_counted_outside_the_aggregate_list")
+                    continue
+                base = f"{last_next}@Some.0.1*.{argix}"
+                od, idd = ctx.declare(base + "#d", "isize"), ctx.declare(base + "@Some.0#d", "isize")
+                qs.append(conj(e.get("pc_prefix", path.pc) + [f"(= {od.term} {bvconst(1, 64)})", f"(not (= {idd.term} {bvconst(star, 64)}))"]))
+                labels.append("row_counted_for_an_aggregate_that_has_an_argument")
+            elif c.endswith("Accumulator::accumulate"):
+                n_acc += 1
+                served = True
+                ok = last_eval is not None and last_next is not None and last_eval[0] in e["argdesc"][-1] and last_next in last_eval[1]
+                if not ok:
+                    qs.append(conj(e.get("pc_prefix", path.pc)))
+                    labels.append("accumulator_fed_something_else_than_the_value_of_its_argument")
+    kw = dict(paths=len(res), events={"accumulate_star": n_star, "accumulate": n_acc})
+    if not n_star or not n_acc:
+        return result(ob, "inconclusive", reason="vacuity: no accumulate / accumulate_star call on any path", **kw)
+    chk = env.check(ctx, qs)
+    failed = sorted({lab for lab, c in zip(labels, chk) if c["verdict"] == "sat"})
+    unk = [c["verdict"] for c in chk if c["verdict"] not in ("sat", "unsat")]
+    kw["queries"] = len(chk)
+    if failed:
+        return result(ob, "violated", failed=failed, cex={"what": "accumulate_row feeds an aggregate the wrong thing"}, **kw)
+    if unk:
+        return result(ob, "inconclusive", reason="solver: " + ",".join(unk[:3]), **kw)
+    return result(ob, "discharged", **kw)
+
+
 # ---------------------------------------------------------------------------------------------------------------------
 # C05: operator precedence of the Pratt parser (constants and the loop condition are extracted from the real MIR)
 # ---------------------------------------------------------------------------------------------------------------------
